@@ -393,3 +393,6 @@ Proof.
   destruct (dec n) eqn:E; [congruence|]. rewrite <- E. unfold dec.
   now rewrite bytes_uint_bytes, DecimalN.Unsigned.of_to.
 Qed.
+
+Theorem dec_faithful : forall n m : N, parse_dec (dec n) = Some n /\ (dec n = dec m -> n = m).
+Proof. intros. split; [apply parse_dec_dec | apply dec_inj]. Qed.
